@@ -72,6 +72,7 @@ type NodeRT struct {
 	// SelfCloseAt-th callback (the "watch until X, then stop" pattern)
 	NoInit      bool // the monitor's handler registers no OnInitialize
 	hslot       *handlerSlot
+	RacyDrain   bool            // the consumer woke up and drained while events were in flight (no exact count can be demanded of it)
 	keptInit    []metav1.Object // the slice OnInitialize was handed, kept by the handler
 	keptIDs     []string
 	hval        kcache.Handler
